@@ -229,9 +229,11 @@ def gen_seq_program(seed, prof, tier="quick", mp=None, length=None):
         elif k == "smeta":
             op = {"op": "smeta", "pid": rng.randrange(npids), "m": rng.randrange(len(mcontents)),
                   "fmt": rng.choice([None] + list(range(len(formats)))),
-                  "kind": rng.choice(["str", "path", "file", "str"])}
-            if op["kind"] == "file":
+                  "kind": rng.choice(["str", "path", "file", "str", "mem", "bytesio", "bufreader", "rwfile"])}
+            if op["kind"] in ("file", "mem", "bytesio", "bufreader"):
                 op["off"] = rng.choice([0, 2])
+            if op["kind"] in ("mem", "rwfile"):
+                op["short"] = rng.choice([0, 1, 3])
             if op["fmt"] is None and rng.random() < 0.3:
                 op["explicit_none"] = True
             ops.append(op)
